@@ -1,7 +1,7 @@
 (** The scalar definitions of src/simd/dispatch.c (scalar_* functions), transcribed with explicit index
     ranges: every element read is a checked [load]/[load1], every element written a checked [store]/[store1].
     Counts and indices are [nat]; array contents are byte lists (little-endian elements). *)
-From Coq Require Import NArith List Arith Bool.
+From Coq Require Import NArith ZArith List Arith Bool.
 From Carquet Require Import Base.Res Simd.Vec.
 Import ListNotations.
 Local Open Scope nat_scope.
@@ -22,3 +22,150 @@ Definition scalar_bss_encode (w count : nat) (src out : list N) : res (list N) :
   scalar_loop count (bss_enc_step w count src) out.
 Definition scalar_bss_decode (w count : nat) (src out : list N) : res (list N) :=
   scalar_loop count (bss_dec_step w count src) out.
+
+(* ------------------------------------------------------------------ booleans *)
+Local Open Scope N_scope.
+
+(** `(input[byte_idx] >> bit_idx) & 1` *)
+Definition bit_of (x : N) (k : nat) : N := N.land (N.shiftr x (N.of_nat k)) 1.
+
+(** scalar_unpack_bools: `output[i] = (input[i / 8] >> (i % 8)) & 1` *)
+Definition unpack_step (inp : list N) (i : nat) (out : list N) : res (list N) :=
+  let* x := load1 inp (i / 8)%nat in store1 out i (bit_of x (i mod 8)%nat).
+Definition scalar_unpack_bools (count : nat) (inp out : list N) : res (list N) :=
+  scalar_loop count (unpack_step inp) out.
+
+(** `for (j = 0; j < n; j++) if (input[i + j]) byte |= (1 << j);` with n = min(8, count - i) *)
+Definition pack_group (inp : list N) (i n : nat) : res N :=
+  iter_blocks n 1 0 (fun j acc => let* x := load1 inp (i + j)%nat in
+                                  Ok (if x =? 0 then acc else N.lor acc (N.shiftl 1 (N.of_nat j)))) 0.
+
+Definition pack_tail (count : nat) (inp : list N) (i : nat) (out : list N) : res (list N) :=
+  let* byte := pack_group inp i (Nat.min 8 (count - i)) in store1 out (i / 8)%nat byte.
+
+(** scalar_pack_bools: `for (i = 0; i < count; i += 8) { ...; output[i / 8] = byte; }` *)
+Definition scalar_pack_bools (count : nat) (inp out : list N) : res (list N) :=
+  iter_blocks ((count + 7) / 8) 8 0 (pack_tail count inp) out.
+
+(* ------------------------------------------------------------------ prefix sums (in place; state = array, running sum) *)
+
+(** `sum += values[i]; values[i] = sum;` on w-byte two's complement integers (signed overflow wraps) *)
+Definition psum_step (w : nat) (i : nat) (st : list N * N) : res (list N * N) :=
+  let '(buf, sum) := st in
+  let* x := load buf (i * w)%nat w in
+  let sum' := (sum + le_num x) mod 2 ^ (8 * N.of_nat w) in
+  let* buf' := store buf (i * w)%nat (le_bytes w sum') in
+  Ok (buf', sum').
+
+Definition scalar_prefix_sum (w count : nat) (buf : list N) (initial : N) : res (list N) :=
+  rmap fst (scalar_loop count (psum_step w) (buf, initial mod 2 ^ (8 * N.of_nat w))).
+
+(* ------------------------------------------------------------------ dictionary gather *)
+
+(** `output[i] = dict[indices[i]]` for w-byte elements; indices are uint32_t *)
+Definition gather_step (w : nat) (dict idxs : list N) (i : nat) (out : list N) : res (list N) :=
+  let* ix := load idxs (i * 4)%nat 4 in
+  let* x := load dict (N.to_nat (le_num ix) * w)%nat w in
+  store out (i * w)%nat x.
+Definition scalar_gather (w count : nat) (dict idxs out : list N) : res (list N) :=
+  scalar_loop count (gather_step w dict idxs) out.
+
+(* ------------------------------------------------------------------ definition levels (int16_t) *)
+
+Definition signed16 (x : N) : Z := if x <? 32768 then Z.of_N x else (Z.of_N x - 65536)%Z.
+
+(** scalar_count_non_nulls: `if (def_levels[i] == max_def_level) non_null_count++;` *)
+Definition nonnull_step (lv : list N) (mx : N) (i : nat) (acc : N) : res N :=
+  let* x := load lv (i * 2)%nat 2 in Ok (if le_num x =? mx then acc + 1 else acc).
+Definition scalar_count_non_nulls (count : nat) (lv : list N) (mx : N) : res N :=
+  scalar_loop count (nonnull_step lv mx) 0.
+
+(** bits j of the result: def_levels[i + j] < max_def_level (signed), for j < n *)
+Definition null_bits (lv : list N) (mx : N) (i n : nat) : res N :=
+  iter_blocks n 1 0 (fun j acc => let* x := load lv ((i + j) * 2)%nat 2 in
+                                  Ok (if (signed16 (le_num x) <? signed16 mx)%Z then N.lor acc (N.shiftl 1 (N.of_nat j)) else acc)) 0.
+
+(** scalar_build_null_bitmap (as repaired): full bytes, then the last partial byte is assigned *)
+Definition scalar_build_null_bitmap (count : nat) (lv : list N) (mx : N) (out : list N) : res (list N) :=
+  let full := (count / 8)%nat in
+  let* out := iter_blocks full 1 0 (fun b o => let* bits := null_bits lv mx (b * 8) 8 in store1 o b bits) out in
+  if (full * 8 <? count)%nat then
+    let* bits := null_bits lv mx (full * 8) (count - full * 8) in store1 out full bits
+  else Ok out.
+
+(** scalar_fill_def_levels: `def_levels[i] = value` *)
+Definition fill_step (v : N) (i : nat) (out : list N) : res (list N) := store out (i * 2)%nat (le_bytes 2 v).
+Definition scalar_fill_def_levels (count : nat) (v : N) (out : list N) : res (list N) :=
+  scalar_loop count (fill_step v) out.
+
+(* ------------------------------------------------------------------ run length / match length (early return) *)
+
+(** `for (; i < count; i++) if (values[i] != first) return i;  return count;` from index i, n iterations *)
+Fixpoint run_scan (n : nat) (vals : list N) (first : list N) (i : nat) (count : nat) : res nat :=
+  match n with
+  | O => Ok count
+  | S m => let* x := load vals (i * 4)%nat 4 in
+           if list_eq_dec N.eq_dec x first then run_scan m vals first (i + 1) count else Ok i
+  end.
+
+(** scalar_find_run_length_i32 *)
+Definition scalar_find_run_length (count : nat) (vals : list N) : res nat :=
+  match count with
+  | O => Ok O
+  | _ => let* first := load vals 0 4 in run_scan (count - 1) vals first 1 count
+  end.
+
+(** `while (p < limit && *p == *match) { p++; match++; }` from offset k, at most n iterations *)
+Fixpoint match_scan (n : nat) (p m : list N) (k : nat) : res nat :=
+  match n with
+  | O => Ok k
+  | S n' => let* a := load1 p k in let* b := load1 m k in
+            if a =? b then match_scan n' p m (k + 1) else Ok k
+  end.
+(** scalar_match_length(p, match, limit) with limit - p = n *)
+Definition scalar_match_length (n : nat) (p m : list N) : res nat := match_scan n p m 0.
+
+(* ------------------------------------------------------------------ match copy (one buffer; dst = d, src = d - offset) *)
+
+(** `while (len > 0) { *dst++ = *src++; len--; }` *)
+Fixpoint copy_bytes (n : nat) (buf : list N) (s d : nat) : res (list N) :=
+  match n with
+  | O => Ok buf
+  | S m => let* x := load1 buf s in let* buf := store1 buf d x in copy_bytes m buf (s + 1) (d + 1)
+  end.
+(** `while (len >= W) { memcpy(dst, src, W); dst += W; src += W; len -= W; }` *)
+Fixpoint copy_chunks (n W : nat) (buf : list N) (s d : nat) : res (list N) :=
+  match n with
+  | O => Ok buf
+  | S m => let* x := load buf s W in let* buf := store buf d x in copy_chunks m W buf (s + W) (d + W)
+  end.
+
+(** scalar_match_copy(dst, src, len, offset) *)
+Definition scalar_match_copy (buf : list N) (d len offset : nat) : res (list N) :=
+  let s := (d - offset)%nat in
+  if (8 <=? offset)%nat then
+    let k := (len / 8)%nat in
+    let* buf := copy_chunks k 8 buf s d in
+    copy_bytes (len - 8 * k) buf (s + 8 * k) (d + 8 * k)
+  else copy_bytes len buf s d.
+
+(* ------------------------------------------------------------------ CRC32C (table driven) *)
+
+Definition crc32c_table_step (tbl : list N) (crc x : N) : N :=
+  N.lxor (nth (N.to_nat (N.land (N.lxor crc x) 255)) tbl 0) (N.shiftr crc 8).
+(** scalar_crc32c: `crc = ~crc; for ... crc = table[(crc ^ data[i]) & 0xFF] ^ (crc >> 8); return ~crc;` *)
+Definition scalar_crc32c (tbl : list N) (crc : N) (data : list N) : N :=
+  N.lxor (fold_left (crc32c_table_step tbl) data (N.lxor (crc mod 2 ^ 32) 0xFFFFFFFF)) 0xFFFFFFFF.
+
+(* ------------------------------------------------------------------ fixed-width bit unpacking, memset, memcpy *)
+
+(** value i of nvals w-bit values packed LSB first: the generic meaning (core/bitpack.c) *)
+Definition unpack_value (inp : list N) (w i : nat) : N :=
+  N.land (N.shiftr (le_num inp) (N.of_nat (i * w))) (N.ones (N.of_nat w)).
+Definition scalar_bitunpack (w nvals : nat) (inp : list N) : list N :=
+  flat_map (fun i => le_bytes 4 (unpack_value inp w i)) (seq 0 nvals).
+
+Definition scalar_memset (n : nat) (v : N) (out : list N) : res (list N) :=
+  scalar_loop n (fun i o => store1 o i (v mod 256)) out.
+Definition scalar_memcpy (n : nat) (src out : list N) : res (list N) :=
+  scalar_loop n (fun i o => let* x := load1 src i in store1 o i x) out.
